@@ -578,8 +578,9 @@ class BlockUploadStream(io.RawIOBase):
         request[1] = self._ackseq
         request[2] = self.blksize
         self.sdo_client.send_request(request)
-        if self._ackseq == self.blksize:
-            self._ackseq = 0
+        # The server numbers the segments of the next sub-block from 1 again,
+        # also when it retransmits after an incomplete sub-block
+        self._ackseq = 0
 
     def _end_upload(self):
         response = self.sdo_client.read_response()
